@@ -20,7 +20,10 @@ import (
 	"math/rand"
 	"os"
 	"path/filepath"
+	"runtime"
 	"strings"
+	"sync"
+	"sync/atomic"
 	"testing/iotest"
 
 	"filippo.io/age/internal/format"
@@ -309,6 +312,7 @@ func Run(tier string) {
 	longLines(run)
 	remarshal(run)
 	charSweep(run)
+	interleavedParses(run)
 	oracle(run, rand.New(rand.NewSource(seed)))
 	run.Finish()
 }
@@ -705,4 +709,111 @@ func (t *symTable) fill(c *hcase) {
 		in = append(in, b...)
 	}
 	c.Input = in
+}
+
+// interleavedParses: what Parse hands back as the payload reader belongs to that call alone. Several files are parsed
+// one after the other (and by several goroutines at once) before any payload is read; each payload reader must then
+// deliver exactly the bytes behind its own header, in whatever order the payloads are read. (Parse reads ahead of the
+// header; the bytes it read ahead must not live in anything a later Parse call can write to.)
+func interleavedParses(run *vk.Run) {
+	var bases [][]byte
+	for _, n := range []int{0, 1, 47, 48, 49, 96, 200} {
+		h := &format.Header{MAC: bytes.Repeat([]byte{byte(n)}, 32)}
+		h.Recipients = append(h.Recipients, &format.Stanza{Type: "X25519", Args: []string{"abc"}, Body: bytes.Repeat([]byte{0xa5}, n)})
+		if n%2 == 1 {
+			h.Recipients = append(h.Recipients, &format.Stanza{Type: "grease", Body: []byte{1, 2, 3}})
+		}
+		b, err := marshal(h)
+		if err != nil {
+			vk.Infra("%v", err)
+		}
+		bases = append(bases, b)
+	}
+	type file struct {
+		in      []byte
+		payload []byte
+	}
+	mkFiles := func(n int, salt int) []file {
+		var fs []file
+		for i := 0; i < n; i++ {
+			h := bases[(i+salt)%len(bases)]
+			ln := []int{0, 1, 17, 100, 1000, 3000, 4095, 4096, 5000, 70000}[(i*3+salt)%10]
+			pl := make([]byte, ln)
+			for j := range pl {
+				pl[j] = byte(i*37 + salt*11 + j)
+			}
+			fs = append(fs, file{in: append(append([]byte{}, h...), pl...), payload: pl})
+		}
+		return fs
+	}
+	check := func(label string, fs []file, kinds []string, order []int) {
+		rds := make([]io.Reader, len(fs))
+		for i := range fs {
+			h, rd, err := format.Parse(mkReader(kinds[i%len(kinds)], fs[i].in))
+			if err != nil || h == nil || rd == nil {
+				run.Drift("interleaved parses: a base header did not parse (%s): %v", label, err)
+				return
+			}
+			rds[i] = rd
+		}
+		for _, i := range order {
+			got, err := io.ReadAll(rds[i])
+			run.Eval(1)
+			if err != nil || !bytes.Equal(got, fs[i].payload) {
+				run.Violation("C07:payload-reader-disturbed-by-later-parse:"+label, fmt.Sprintf("%s: file %d of %d parsed one after the other (reader kind %s): its payload reader gives %d bytes (%v), the file holds %d behind its header, first difference at %d", label, i+1, len(fs), kinds[i%len(kinds)], len(got), err, len(fs[i].payload), firstDiff(got, fs[i].payload)), map[string]interface{}{"check": "C07.interleaved", "label": label})
+				return
+			}
+		}
+		run.Distinct("interleaved:" + label)
+	}
+	for salt := 0; salt < 10; salt++ {
+		for _, kinds := range [][]string{{"bytes"}, {"bufio16"}, {"onebyte"}, {"bytes", "bufio", "half", "advanced", "section"}} {
+			fs := mkFiles(2+salt%3, salt)
+			fwd := make([]int, len(fs))
+			rev := make([]int, len(fs))
+			for i := range fs {
+				fwd[i], rev[i] = i, len(fs)-1-i
+			}
+			check(fmt.Sprintf("sequential/%s/%d/forward", strings.Join(kinds, "+"), salt), fs, kinds, fwd)
+			check(fmt.Sprintf("sequential/%s/%d/reverse", strings.Join(kinds, "+"), salt), fs, kinds, rev)
+		}
+	}
+	// goroutines: each parses, yields, and reads its payload while the others do the same
+	var wg sync.WaitGroup
+	var bad atomic.Value
+	for g := 0; g < 32; g++ {
+		wg.Add(1)
+		go func(g int) {
+			defer wg.Done()
+			defer func() { recover() }()
+			for round := 0; round < 20; round++ {
+				fs := mkFiles(1, g*20+round)
+				_, rd, err := format.Parse(bytes.NewReader(fs[0].in))
+				if err != nil {
+					return
+				}
+				runtime.Gosched()
+				got, err := io.ReadAll(rd)
+				if err != nil || !bytes.Equal(got, fs[0].payload) {
+					bad.Store(fmt.Sprintf("goroutine %d round %d: payload reader gives %d bytes (%v), the file holds %d behind its header", g, round, len(got), err, len(fs[0].payload)))
+					return
+				}
+			}
+		}(g)
+	}
+	wg.Wait()
+	run.Eval(32 * 20)
+	if s, ok := bad.Load().(string); ok {
+		run.Violation("C07:payload-reader-disturbed-by-later-parse:concurrent", s, map[string]interface{}{"check": "C07.interleaved", "label": "concurrent"})
+	}
+	run.Distinct("interleaved:concurrent")
+}
+
+func firstDiff(a, b []byte) int {
+	for i := 0; i < len(a) && i < len(b); i++ {
+		if a[i] != b[i] {
+			return i
+		}
+	}
+	return min(len(a), len(b))
 }
